@@ -728,6 +728,48 @@ def h_nx_reuse(ctx, container, how):
   ctx.witness('roundtrip')
 
 
+def h_stats_reuse(ctx, side, how):
+  """A statistics request / reply object encoded, its body changed through the public attribute (assigned anew, changed in place, a list grown in
+  place, a tuple instead of a list), and encoded again: every encoding equals that of a freshly built message - header length field, len() and all."""
+  from props import env
+  env.get_core()
+  of = ctx.pox('pox.openflow.libopenflow_01')
+  p1 = ctx.int('port1', 0, 0xffff); p2 = ctx.int('port2', 0, 0xffff); xid = ctx.int('xid', 0, 0xffffffff)
+  rx1 = ctx.int('rx1', 0, (1 << 64) - 1); rx2 = ctx.int('rx2', 0, (1 << 64) - 1)
+  def consistent(tag, o, b, ref):
+    ctx.check(tag + ': bytes == freshly built message', _eq_bytes(ctx, b, list(ref)))
+    ctx.check(tag + ': header length field == byte count == len()', ctx.And(((b[2] << 8) | b[3]) == len(b), len(o) == len(b)))
+  if side == 'request':
+    def fresh(p): return of.ofp_stats_request(xid=xid, body=of.ofp_port_stats_request(port_no=p))
+    o = fresh(p1); b1 = o.pack()
+    consistent('first', o, b1, fresh(p1).pack())
+    if how == 'assign': o.body = of.ofp_port_stats_request(port_no=p2)
+    else: o.body.port_no = p2
+    b2 = o.pack()
+    consistent('after the change', o, b2, fresh(p2).pack())
+    off, o2 = of.ofp_stats_request.unpack_new(b2)
+    ctx.check('decodes: consumed, equal', off == len(b2) and o2 == o)
+    ctx.check('decoded body is the new one', o2.body.port_no == p2)
+  else:
+    def ps(p, rx): return of.ofp_port_stats(port_no=p, rx_packets=rx)
+    def fresh(n, seq=list): return of.ofp_stats_reply(xid=xid, body=seq([ps(p1, rx1), ps(p2, rx2)][:n]))
+    if how == 'tuple':
+      o = fresh(2, tuple); b2 = o.pack()
+    else:
+      o = fresh(1); b1 = o.pack()
+      consistent('first', o, b1, fresh(1).pack())
+      if how == 'append': o.body.append(ps(p2, rx2))
+      elif how == 'assign': o.body = [ps(p1, rx1), ps(p2, rx2)]
+      else: o.body[0].rx_packets = rx2
+      b2 = o.pack()
+    ref = of.ofp_stats_reply(xid=xid, body=[ps(p1, rx2)]).pack() if how == 'inplace' else fresh(2).pack()
+    consistent('after the change', o, b2, ref)
+    off, o2 = of.ofp_stats_reply.unpack_new(b2)
+    ctx.check('decodes: consumed', off == len(b2))
+    ctx.check('decodes: same entries', len(o2.body) == (1 if how == 'inplace' else 2) and all(a == b for a, b in zip(o2.body, o.body)))
+  ctx.witness('roundtrip')
+
+
 def obligations(tier):
   thorough = tier != 'quick'
   cases = []
@@ -777,6 +819,8 @@ def obligations(tier):
     Obligation('O4_nx_messages', h_nx_msg, [dict(name=k) for k in ('nx_flow_mod_table_id', 'nx_packet_in_format', 'nx_role_request', 'nx_async_config', 'nx_flow_mod:0:0', 'nx_flow_mod:1:1',
                                                             'nx_flow_mod:2:0', 'nx_flow_mod:2:1', 'nxt_packet_in:0:0', 'nxt_packet_in:1:3', 'nxt_packet_in:2:1')],
                witnesses=('roundtrip',), desc='Nicira vendor messages: header, vendor id, decode == original, re-encode identical'),
+    Obligation('O5_stats_reuse', h_stats_reuse, [dict(side='request', how=h) for h in ('assign', 'inplace')] + [dict(side='reply', how=h) for h in ('append', 'assign', 'inplace', 'tuple')], witnesses=('roundtrip',),
+               desc='a statistics request / reply whose body is changed between two encodings (assigned, changed in place, list grown, tuple): each encoding equals a freshly built message'),
     Obligation('O4_nx_reuse', h_nx_reuse, [dict(container=c, how=h) for c in ('flow_mod', 'packet_in') for h in ('mask_attr', 'with_mask', 'entry')], witnesses=('roundtrip',),
                desc='an nx_match changed in place (mask added / removed on an existing entry) between two encodings of the message that carries it'),
     Obligation('O3_match_forms', h_match_forms, [dict(embed=e) for e in ('match', 'flow_mod', 'flow_removed')], witnesses=('roundtrip', 'raw-bytes-form'),
